@@ -10,6 +10,7 @@ skeleton is present and one of its components deviates.
 from __future__ import annotations
 
 import ast
+import re
 
 from .. import finite
 from ..loader import AnalysisError, FuncInfo, loc, body_without_docstring, is_none, attr_chain
@@ -134,6 +135,9 @@ def _rows_var(fi):
     v = ret.value.elts[1]
     if isinstance(v, ast.Call) and unparse(v.func) == 'list' and len(v.args) == 1:
         v = v.args[0]
+    if isinstance(v, (ast.ListComp, ast.GeneratorExp)) and len(v.generators) == 1 and isinstance(v.generators[0].iter, ast.Name):
+        # the final projection folded into the return statement
+        return v.generators[0].iter.id, ret
     if not isinstance(v, ast.Name):
         raise AnalysisError(f'{fi.fq}: returned rows are not a plain variable')
     return v.id, ret
@@ -424,10 +428,53 @@ def rule_aggproto(P) -> RuleResult:
                     desc = 'absent' if not present else {None: 'NULL', False: 'false', True: 'true'}[cls]
                     fail('having', f'with HAVING {desc} the group row is {"kept" if passed else "dropped"}, expected '
                          f'{"kept" if want else "dropped"}', ol)
-    # (g) key values are re-read from the key in order, aggregates from the nodes, in target order
+    # (g) layout of the key tuple: produced and consumed over the same sequence with the same filter
     src = unparse(ol)
-    if f'iter({okey})' not in src or 'next(' not in src:
-        res.info('group-key values are not re-read through iter(key)/next(): clause (g) not judged')
+    consumer = None
+    for n in ast.walk(ol):
+        if isinstance(n, ast.For) and n is not ol and isinstance(n.iter, ast.Call) and unparse(n.iter.func) == 'enumerate':
+            for t in n.body:
+                if isinstance(t, ast.If) and 'next(' in unparse(t.body) and isinstance(t.test, ast.Compare) \
+                        and isinstance(t.test.ops[0], ast.In):
+                    consumer = (unparse(n.iter.args[0]), unparse(t.test.comparators[0]), unparse(t.test.left),
+                                unparse(n.target.elts[0]) if isinstance(n.target, ast.Tuple) else None)
+    if consumer is None or f'iter({okey})' not in src:
+        raise AnalysisError(f'{fi.fq}: the way group-key values are put back into the output row is not understood')
+    ctargets, cgi, cleft, cidx = consumer
+    if cleft != cidx:
+        fail('key-layout', f'group-key values are consumed under the test `{cleft} in {cgi}`, not by target position')
+    gidefs = [n for n in ast.walk(fi.node) if isinstance(n, ast.Assign) and unparse(n.targets[0]) == cgi]
+    gi_is_set = bool(gidefs) and all('set(' in unparse(d.value) for d in gidefs)
+    # producer of the key: the list iterated to compute `key`
+    pdefs = [n for n in ast.walk(fi.node) if isinstance(n, ast.Assign) and nonagg and unparse(n.targets[0]) == nonagg]
+    appended = [n for n in ast.walk(fi.node) if isinstance(n, ast.For) and nonagg and f'{nonagg}.append(' in unparse(n)]
+    layout_ok = None
+    if appended and len(pdefs) == 1 and unparse(pdefs[0].value) == '[]':
+        pl0 = appended[0]
+        tests = [t for t in pl0.body if isinstance(t, ast.If) and f'{nonagg}.append(' in unparse(t.body)]
+        if (isinstance(pl0.iter, ast.Call) and unparse(pl0.iter.func) == 'enumerate' and unparse(pl0.iter.args[0]) == ctargets
+                and len(tests) == 1 and isinstance(tests[0].test, ast.Compare) and isinstance(tests[0].test.ops[0], ast.In)
+                and unparse(tests[0].test.comparators[0]) == cgi
+                and unparse(tests[0].test.left) == unparse(pl0.target.elts[0])):
+            layout_ok = True
+        else:
+            layout_ok = False
+    elif len(pdefs) == 1 and isinstance(pdefs[0].value, ast.ListComp):
+        c = pdefs[0].value
+        g = c.generators[0]
+        if unparse(c.elt) == f'{ctargets}[{unparse(g.target)}]' and unparse(g.iter) == cgi and not g.ifs:
+            # one key item per element of the index collection, in its order: equals the consumption order only when
+            # that collection holds each grouped target once, in target order
+            srcs = [unparse(d.value) for d in gidefs]
+            layout_ok = bool(srcs) and all(re.search(r'sorted\(set\(', x) for x in srcs)
+        else:
+            layout_ok = False
+    if layout_ok is None:
+        raise AnalysisError(f'{fi.fq}: construction of the group-key expression list `{nonagg}` is not understood')
+    if not layout_ok:
+        fail('key-layout', f'the group key is built from `{nonagg}` in an order / multiplicity that differs from the way the output '
+             f'loop reads it back (one item per target whose index is in {cgi}, in target order): with a GROUP BY that names a target '
+             f'twice or out of order, key values land in the wrong columns')
     # nonagg / L provenance: partition of the targets by membership in group_indexes
     part = [n for n in ast.walk(fi.node) if isinstance(n, ast.For) and nonagg and f'{nonagg}.append(' in unparse(n)
             and f'{L}.extend(' in unparse(n)]
@@ -463,6 +510,12 @@ def _tail_stages(fi):
         src = unparse(s)
         kind = None
         if s is ret:
+            rv = ret.value.elts[1]
+            if isinstance(rv, ast.Call) and unparse(rv.func) == 'list' and rv.args:
+                rv = rv.args[0]
+            if isinstance(rv, (ast.ListComp, ast.GeneratorExp)):
+                # projection performed by the return expression itself
+                stages.append(('PROJECT', ast.Assign(targets=[ast.Name(id=rows, ctx=ast.Store())], value=rv, lineno=ret.lineno)))
             kind = 'RETURN'
         elif '.sort(' in src or 'sorted(' in src:
             kind = 'SORT'
@@ -544,7 +597,7 @@ def rule_pipeline(P) -> RuleResult:
             res.fail(construct, 'distinct-gate', f'DISTINCT must apply exactly when requested; gate is `{unparse(s.test)}`', loc(fi, s))
         a = s.body[0]
         if not (unparse(a.targets[0]) == rows and isinstance(a.value, ast.Call) and [unparse(x) for x in a.value.args] == [rows]):
-            res.fail(construct, 'distinct', f'DISTINCT must de-duplicate the projected rows; found `{unparse(a)}`', loc(fi, s))
+            res.fail(construct, 'distinct', f'DISTINCT must de-duplicate the projected rows as they are; found `{unparse(a)}`', loc(fi, s))
         else:
             callee = unparse(a.value.func)
             tgt = P.lookup(fi.module.dotted(a.value.func) or '')
@@ -681,13 +734,18 @@ def rule_nullkey(P) -> RuleResult:
         fn = f.node
         param = f.params[0]
         multi = any(isinstance(s, ast.For) for s in fn.body)
-        for cls in (None, VV, False, 0):
+        for cls in (None, VV, False, 0, finite.Falsy('ZERO')):
             def sub(e, st, mm, _cls=cls):
                 return _cls
-            mach = finite.Machine(subscript=sub, names={n: NULLM for n in null_names} | {param: finite.Sym('ROW')})
+            mach = finite.Machine(subscript=sub, names={n: NULLM for n in null_names} | {param: finite.Sym('ROW'), 'items': finite.Sym('ITEMS')})
+            mach.comprehensions = True
             want = NULLM if cls is None else cls
             try:
-                if multi:
+                if not multi and any(isinstance(x, (ast.GeneratorExp, ast.ListComp)) for x in ast.walk(fn)):
+                    # comprehension form of the multi-key getter: the value of each element
+                    mach.run(body_without_docstring(fn), {})
+                    got = '?'
+                elif multi:
                     pre, loop, post = finite.split_loop(fn)
                     st = mach.run(pre, {})
                     st = dict(st)
@@ -700,6 +758,8 @@ def rule_nullkey(P) -> RuleResult:
                     got = '?'
             except finite.Return as r:
                 got = r.value
+                if isinstance(got, finite.Each):
+                    got = got.value
             if got is want or got == want and type(got) is type(want):
                 res.ok({'getter': f.qualname, 'item': repr(cls), 'key': repr(got)})
             else:
